@@ -171,9 +171,17 @@ def check_blank(ctx, out):
         names = [callee_name(t).split("::")[-1] for bi, t in b.calls()]
         if "push_str" not in names:
             continue
-        v = ctx.inl(b, tag="all")
-        rep = lensym.normaliser_report(ctx, v)
-        bad = [m for ok, m in rep if not ok]
+        # the identity is a proof obligation: it is discharged if it can be shown on either reading of
+        # the function (helpers inlined; or the fully normalised view, where tuples / Options returned
+        # by helpers are taken apart)
+        rep = bad = None
+        for v in (ctx.inl(b, tag="all"), ctx.inl(b, skip=ctx.domain_api, tag="domain", sugar=True)):
+            rep1 = lensym.normaliser_report(ctx, v)
+            bad1 = [m for ok, m in rep1 if not ok]
+            if rep is None or (rep1 and not bad1):
+                rep, bad = rep1, bad1
+            if rep and not bad:
+                break
         for i, m in enumerate(sorted(set(bad))):
             out.viol("C03.blank", "C03.blank|%s|length|%d" % (b.id, i), ctx.where(b),
                      "comment normaliser `%s` is not length-preserving: %s" % (b.name if b.kind != "Closure" else b.id.split("::")[-2] + " visitor", m))
